@@ -36,7 +36,7 @@ Definition recover_spec_out (hnil : bool) (fn : Z) (cs : list Z) : list Z :=
 (* family 4: k tasks panic with a value that is hostile to its printer (kind vk), handler hk (0 none, 1 goz.LogPanic, 2 func):
    the process survives, every panic is reported once to a configured handler, the limit is available again in full and the
    final Wait returns - whatever the value is (vk does not occur on the right). *)
-Definition hostile_out (n hk k : Z) : list Z := [1; (if hk =? 0 then 0 else k); Z.of_nat (eff_limit n); 1].
+Definition hostile_out (n hk k : Z) : list Z := [1; (if hk mod 4 =? 0 then 0 else k); Z.of_nat (eff_limit n); 1].
 
 Definition entry (sub : Z) (args : list Z) : list Z :=
   if sub =? 0 then
@@ -56,7 +56,7 @@ Definition entry (sub : Z) (args : list Z) : list Z :=
     | 1 :: n :: s :: m :: seed :: pk :: maxin :: tr => [zb (stress_spec n (s * m) seed pk maxin (dec_trace tr) out)]
     | 2 :: hnil :: fn :: cs => [zb (list_eqb out (recover_spec_out (bz hnil) fn cs))]
     | [3; n; s; m] => [zb (list_eqb out [s * m; 0; 1])]
-    | [4; n; hk; vk; k] => [zb (list_eqb out [1; (if hk =? 0 then 0 else k); Z.of_nat (eff_limit n); 1])]
+    | [4; n; hk; vk; k] => [zb (list_eqb out [1; (if hk mod 4 =? 0 then 0 else k); Z.of_nat (eff_limit n); 1])]
     | _ => [BADCASE]
     end
   else [BADCASE].
